@@ -82,7 +82,6 @@ def gen_knobs(rng, prop, profile):
         seen = set()
         keys = [k for k in keys if (k["scheme"], k["res"], k["comment"]) not in seen and not seen.add((k["scheme"], k["res"], k["comment"]))]
     second = rng.random() < 0.35
-    is_module = None  # decided below; chain keys only make sense with the module-level API and a second cache
     sizes = sorted(res_sizes[k["res"]] + (4 if k["pp"] else 0) for k in keys)
     total = sum(sizes)
     cls = wchoice(rng, [(12, "tiny"), (30, "few"), (33, "half"), (25, "all")])
@@ -106,12 +105,8 @@ def gen_knobs(rng, prop, profile):
                           (15, {"policy": "uniform"}),
                           (10, {"policy": "none"})])
     api = "module" if rng.random() < 0.2 else "object"
-    if second and api == "module" and rng.random() < 0.7:
-        # some keys are obtained through the second cache (nested request on another cache of the process)
-        for kd in keys:
-            if kd["scheme"] == "sim" and "<<" not in kd["res"] and rng.random() < 0.4 and \
-                    ("chain", kd["res"], kd["comment"]) not in {(x["scheme"], x["res"], x["comment"]) for x in keys}:
-                kd["scheme"] = "chain"
+    # (keys obtained THROUGH the second cache - nested requests on two caches - were tried and removed again:
+    # see DESIGN 15.5, item 15)
     return {
         "keys": keys, "res_sizes": res_sizes, "max_bytes": int(max_bytes), "size_class": cls,
         "parallel": profile.get("parallel", rng.random() < 0.55),
@@ -127,7 +122,7 @@ def gen_knobs(rng, prop, profile):
         "val_style": wchoice(rng, [(60, "bool"), (20, "numpy"), (20, "int")]),
         "relative_path": rng.random() < 0.12,
         "second_cache": second,  # (module-level API only) a second named cache in the same process
-        "other_max": int(max(sizes[-1] + 10, total * rng.choice([0.3, 0.6, 3.0]))),
+        "other_max": 10**9,
         "tmp_other_device": rng.random() < 0.5,  # is the system temp directory on another file system?
         "tilde_path": rng.random() < 0.06,
         "ret_style": wchoice(rng, [(75, "true"), (25, "none")]),
